@@ -101,8 +101,33 @@ def _cache_replay(nt):
             'observed': {'order': shapes, 'differs_at': diff, 'in_sequence': [h if isinstance(h, str) else h[:3] for h in here]}}
 
 
+def _repop_replay():
+    """More clusters than regimes and a stiff switching cost: repopulation events in every run."""
+    import fast_ticc
+
+    def run(shape_other=False):
+        np.random.seed(4)
+        random.seed(4)
+        rng = np.random.default_rng(9)
+        d = np.concatenate([rng.standard_normal((60, 2 if shape_other else 3)) + 7.0 * k for k in range(3)])
+        return fast_ticc.ticc_labels(d, window_size=2, num_clusters=5, iteration_limit=4, min_cluster_size=6,
+                                     sparsity_weight=0.1, label_switching_cost=150.0)
+    os.environ.pop('CUPCAKE_ENABLE_MULTIPROCESSING', None)
+    try:
+        a = run()
+        run(True)
+        b = run()
+    except Exception as exc:
+        return {'reproduced': False, 'signature': None, 'observed': {'run_failed': repr(exc)}}
+    d = _same(a, b)
+    return {'reproduced': d is not None, 'signature': 'repeated-run-differs' if d else None,
+            'observed': {'difference': d}}
+
+
 def replay(w):
     nt = w.get('notes') or {}
+    if nt.get('kind') == 'repopulating':
+        return _repop_replay()
     if nt.get('kind') == 'cache':
         return _cache_replay(nt)
     K = int(nt.get('K', 3))
